@@ -49,7 +49,9 @@ FAULTBFG = os.path.join(sandbox.VERIF, 'tools', 'faultbin', 'bfg9000')
 FEATURE_SETS = [('find',), ('find', 'pkgconfig'), ('find', 'install'),
                 ('find', 'pkgconfig', 'install'), ('pkgconfig',)]
 EDITS = ['add_match', 'remove_match', 'semantic', 'script_raises',
-         'rule_raises']
+         'script_exits_msg', 'script_exits_code', 'rule_raises']
+# edits after which the script cannot be executed to its end
+SCRIPT_FAILS = ('script_raises', 'script_exits_msg', 'script_exits_code')
 BACKENDS = ['make', 'ninja']
 
 
@@ -82,6 +84,11 @@ def script(feats, edit_applied):
         L.append("command('added', cmd=['true'])")
     elif edit_applied == 'script_raises':
         L.append("raise RuntimeError('boom')")
+    elif edit_applied == 'script_exits_msg':
+        # aborts half-way: the rest of the project is never declared
+        L.insert(3, "raise SystemExit('fatal: boom')")
+    elif edit_applied == 'script_exits_code':
+        L.insert(3, "raise SystemExit(3)")
     elif edit_applied == 'rule_raises':
         L.append("command('all', cmd=['true'])")
     return '\n'.join(L) + '\n'
@@ -204,14 +211,14 @@ def enumerate_pair(rec, pair, shard, nshards, only=None):
                 for line in f:
                     i, kind, path = line.rstrip('\n').split(' ', 2)
                     events.append((int(i), kind, path))
-        expect_fail = pair['edit'] in ('script_raises', 'rule_raises')
+        expect_fail = pair['edit'] in SCRIPT_FAILS + ('rule_raises',)
         case0 = dict(pair)
         if expect_fail:
             if ref_rc == 0:
                 raise Violation('fault/raise-reported-success', 'the script/'
                                 'rule hook raises but the regeneration '
                                 'through {} exited 0'.format(backend), case0)
-            if pair['edit'] == 'script_raises' and ref != before:
+            if pair['edit'] in SCRIPT_FAILS and ref != before:
                 raise Violation('fault/raise-touched-buildfile', 'the build '
                                 'script raised, yet {} changed'.format(
                                     [k for k in ref if ref[k] != before[k]]),
@@ -311,8 +318,8 @@ def tasks(tier):
             seed = 1
         # a seed-chosen subset, each enumerated completely; the
         # find/add_match pairs (where the persisted cache matters) always in
-        core = [p for p in pairs if p['edit'] in ('add_match', 'semantic')
-                and p['features'] == ['find', 'pkgconfig']]
+        core = [p for p in pairs if p['edit'] in ('add_match', 'semantic') +
+                SCRIPT_FAILS and p['features'] == ['find', 'pkgconfig']]
         rest = [p for p in pairs if p not in core]
         k = (seed * 7) % len(rest)
         chosen = core + [rest[k]]
